@@ -138,6 +138,14 @@ DOTTED_CALLS = {'functools.reduce': _reduce, 'six.iterbytes': lambda b: list(byt
                 'six.ensure_str': _ensure_text, 'six.b': lambda s: s.encode('latin-1'), 'six.u': lambda s: s,
                 'six.text_type': str, 'six.binary_type': bytes}
 import collections as _collections
+import itertools as _itertools
+# pure iteration helpers of the standard library: evaluated eagerly over the (finite) model values
+DOTTED_CALLS['itertools.chain'] = lambda *its: [x for it in its for x in list(it)]
+DOTTED_CALLS['itertools.chain.from_iterable'] = lambda its: [x for it in list(its) for x in list(it)]
+DOTTED_CALLS['itertools.islice'] = lambda it, *a: list(_itertools.islice(list(it), *a))
+DOTTED_CALLS['itertools.repeat'] = lambda v, n: [v] * n
+DOTTED_CALLS['itertools.product'] = lambda *its, **kw: [tuple(x) for x in _itertools.product(*[list(i) for i in its], **kw)]
+DOTTED_CALLS['itertools.zip_longest'] = lambda *its, **kw: list(_itertools.zip_longest(*[list(i) for i in its], **kw))
 import re as _re
 # regular expressions are evaluated by the standard library's own engine (pattern text from the evaluated code)
 DOTTED_CALLS['re.compile'] = _re.compile
@@ -320,6 +328,13 @@ class Evaluator:
                 base = None
             if isinstance(base, Native) and hasattr(base, n.attr):
                 return getattr(base, n.attr)
+            if isinstance(base, Native) and getattr(base, '_repo_class', None) is not None:
+                # a property of the repository class the model object stands for: its getter, evaluated on the model
+                m = base._repo_class.resolve(n.attr)
+                if m is not None and not getattr(m.module, 'external', False) and isinstance(m.node, ast.FunctionDef) and \
+                        any(ast.unparse(d) == 'property' for d in m.node.decorator_list):
+                    sub = Evaluator({m.node.args.args[0].arg: base}, self.hook, self.name_hook)
+                    return sub.function(m.node)
             if isinstance(base, slice) and n.attr in ('start', 'stop', 'step'):
                 return getattr(base, n.attr)
         if isinstance(n, ast.Attribute) and ast.unparse(n) in DOTTED and ast.unparse(n).split('.')[0] not in self.env:
